@@ -2,4 +2,4 @@
 
 package main
 
-func credChildMain(args []string) {}
+func credChildMain(args []string) { credChildMainImpl(args) }
